@@ -43,6 +43,10 @@ def gen(rng, tier):
             m['fwd'] = rng.choice(['absent', False, True, True])
             m['origin'] = rng.choice(['absent', 'absent', 'own', 'other',
                                       'unknown'])
+            # some messages carry a top level `uid` - and a request and its
+            # reply carry the same one (RPC request / result pairs)
+            if rng.random() < 0.3:
+                m['uid'] = 'rpc.%04d' % rng.randint(0, 2)
         msgs.append(m)
     ops = [['msg', m] for m in msgs]
     if rng.random() < 0.3 and len(ops) > 1:
@@ -191,6 +195,8 @@ def run(seed, scenario, trace=None, tier='quick'):
                                'mid': m['id']}
                         if m['fwd'] != 'absent':
                             msg['fwd'] = m['fwd']
+                        if m.get('uid'):
+                            msg['uid'] = m['uid']
                         if m['origin'] == 'own':
                             msg['origin'] = m['side']
                         elif m['origin'] == 'other':
